@@ -398,12 +398,26 @@ func ruleCookieFlightNeverResent(c *Ctx, r *Report) {
 					}}
 					at = producesState(w2, fn, isStateT, sending)
 				}
+				// (iii) whatever was retransmitted, it was not the peer's ClientHello: an old record of
+				// another type (a stray Finished with a small message sequence) is no reason either
+				if at == nil {
+					w3 := &Walk{Fn: fn, Follow: followModule, Assume: func(x ssa.Value) (Val, bool) {
+						if val, ok := base(x); ok {
+							return val, true
+						}
+						if _, f, _, ok := fieldLoad(x); ok && (f == "RepeatsHello" || f == "peerRepeatedHello") {
+							return vBool(false), true
+						}
+						return unknown, false
+					}}
+					at = producesState(w3, fn, isStateT, sending)
+				}
 				n++
 				pos := c.pos(fn.Pos())
 				if at != nil {
 					pos = c.ipos(at)
 				}
-				r.Check(at == nil, rule, fmt.Sprintf("%s:%s", short(fn), ck), pos, "no re-send of the cookie request from this handler unless the peer repeated its ClientHello", fmt.Sprintf("%s can switch to StateSending while the state machine sits in the non-retransmittable %s (the cookie request) although the peer did not repeat a handshake message (a timer, an acknowledgement, an empty ACK): something other than a ClientHello draws another cookie request from a server that has verified nothing", short(fn), ck))
+				r.Check(at == nil, rule, fmt.Sprintf("%s:%s", short(fn), ck), pos, "no re-send of the cookie request from this handler unless the peer repeated its ClientHello", fmt.Sprintf("%s can switch to StateSending while the state machine sits in the non-retransmittable %s (the cookie request) although the peer did not repeat its ClientHello (a timer, an acknowledgement, an empty ACK, an old record of another type): something other than a ClientHello draws another cookie request from a server that has verified nothing", short(fn), ck))
 			}
 		}
 	}
